@@ -1,6 +1,9 @@
 package mon
 
 import (
+	"go/ast"
+	"go/constant"
+	"go/parser"
 	"go/scanner"
 	"go/token"
 	"math/rand"
@@ -87,10 +90,23 @@ func InitAutoDict(dir string) {
 					auto.Literals++
 				}
 			case token.INT:
-				if v, err := strconv.ParseInt(lit, 0, 32); err == nil && v >= 2 && v <= 1<<20 {
+				if v, err := strconv.ParseInt(lit, 0, 32); err == nil && v >= 2 && v <= 1<<26 {
 					ints[int(v)] = true
 				}
 			}
+		}
+		// sizes are often spelled as constant expressions (4<<20, 64*1024): evaluate those made of integer literals only
+		if af, err := parser.ParseFile(token.NewFileSet(), p, src, 0); err == nil {
+			ast.Inspect(af, func(n ast.Node) bool {
+				if be, ok := n.(*ast.BinaryExpr); ok {
+					if v := constInt(be); v != nil {
+						if i, exact := constant.Int64Val(v); exact && i >= 2 && i <= 1<<26 {
+							ints[int(i)] = true
+						}
+					}
+				}
+				return true
+			})
 		}
 		return nil
 	})
@@ -154,6 +170,51 @@ func applyAutoDict() {
 	c02gen.AutoTexts, c04gen.AutoTexts = noCR, noCR
 	c14gen.AutoTexts = stable
 	c13xmlgen.AutoTexts, c20gen.AutoTexts = noCR, noCR
+}
+
+// constInt evaluates an expression built from integer literals, parentheses and + - * / << >> only (nil otherwise).
+func constInt(e ast.Expr) constant.Value {
+	switch t := e.(type) {
+	case *ast.BasicLit:
+		if t.Kind == token.INT {
+			return constant.MakeFromLiteral(t.Value, token.INT, 0)
+		}
+	case *ast.ParenExpr:
+		return constInt(t.X)
+	case *ast.BinaryExpr:
+		x, y := constInt(t.X), constInt(t.Y)
+		if x == nil || y == nil || x.Kind() != constant.Int || y.Kind() != constant.Int {
+			return nil
+		}
+		switch t.Op {
+		case token.ADD, token.SUB, token.MUL:
+			return constant.BinaryOp(x, t.Op, y)
+		case token.QUO:
+			if constant.Sign(y) == 0 {
+				return nil
+			}
+			return constant.BinaryOp(x, token.QUO_ASSIGN, y) // integer division
+		case token.SHL, token.SHR:
+			if s, ok := constant.Uint64Val(y); ok && s < 40 {
+				return constant.Shift(x, t.Op, uint(s))
+			}
+		}
+	}
+	return nil
+}
+
+// autoBig: a size >= 1 MiB that the tree spells out (0 if it spells none).
+func autoBig(r *rand.Rand) int {
+	var c []int
+	for _, v := range auto.Ints {
+		if v >= 1<<20 {
+			c = append(c, v)
+		}
+	}
+	if len(c) == 0 {
+		return 0
+	}
+	return c[r.Intn(len(c))]
 }
 
 // AutoDictEvidence reports what the dictionary holds (recorded once per shard).
